@@ -23,16 +23,25 @@ Definition rdpe_get_d (x : rdpe) : b64 := fldexp (mnt x) (wrap32 (clamp_exp (esp
 Definition rdpe_neg (x : rdpe) : rdpe := Rdpe (fneg (mnt x)) (esp x).
 Definition rdpe_abs (x : rdpe) : rdpe :=
   Rdpe (if fgt0 (mnt x) then mnt x else fneg (mnt x)) (esp x).
+(* code as it was (exponent arithmetic wraps): kept for the *_refuted theorems *)
+Definition rdpe_inv_old (x : rdpe) : rdpe :=
+  rdpe_norm_old (Rdpe (fdiv fone (mnt x)) (wrap64 (- esp x))).
+Definition rdpe_sqr_old (x : rdpe) : rdpe :=
+  rdpe_norm_old (Rdpe (fmul (mnt x) (mnt x)) (wrap64 (esp x + esp x))).
+Definition rdpe_sqrt_old (x : rdpe) : rdpe :=
+  if Z.odd (esp x)
+  then rdpe_norm_old (Rdpe (fsqrt (fdiv (mnt x) ftwo)) (Z.quot (wrap64 (esp x + 1)) 2))
+  else rdpe_norm_old (Rdpe (fsqrt (mnt x)) (Z.quot (esp x) 2)).
+(* fixed: mantissa first, then rdpe_set_esp, then rdpe_Norm *)
 Definition rdpe_inv (x : rdpe) : rdpe :=
-  rdpe_norm (Rdpe (fdiv fone (mnt x)) (wrap64 (- esp x))).
+  rdpe_norm (rdpe_set_esp (Rdpe (fdiv fone (mnt x)) (esp x)) 0 (esp x) true).
 Definition rdpe_sqr (x : rdpe) : rdpe :=
-  rdpe_norm (Rdpe (fmul (mnt x) (mnt x)) (wrap64 (esp x + esp x))).
-(* e <<= 1 *)
-Definition rdpe_sqr_eq (x : rdpe) : rdpe :=
-  rdpe_norm (Rdpe (fmul (mnt x) (mnt x)) (wrap64 (2 * esp x))).
+  rdpe_norm (rdpe_set_esp (Rdpe (fmul (mnt x) (mnt x)) (esp x)) (esp x) (esp x) false).
+Definition rdpe_sqr_eq (x : rdpe) : rdpe := rdpe_sqr x.
+(* odd exponent: e / 2 + (e > 0)  (C division truncates) *)
 Definition rdpe_sqrt (x : rdpe) : rdpe :=
   if Z.odd (esp x)
-  then rdpe_norm (Rdpe (fsqrt (fdiv (mnt x) ftwo)) (Z.quot (wrap64 (esp x + 1)) 2))
+  then rdpe_norm (Rdpe (fsqrt (fdiv (mnt x) ftwo)) (Z.quot (esp x) 2 + (if 0 <? esp x then 1 else 0)))
   else rdpe_norm (Rdpe (fsqrt (mnt x)) (Z.quot (esp x) 2)).
 
 (* ---- multiplication ------------------------------------------------------ *)
@@ -67,12 +76,17 @@ Definition rdpe_mul_d (x : rdpe) (d : b64) : rdpe :=
   else rdpe_norm (Rdpe (fmul (mnt x) d) (esp x)).
 
 (* e + i with i unsigned long: computed modulo 2^64, converted back to long *)
-Definition rdpe_mul_2exp (x : rdpe) (i : Z) : rdpe := Rdpe (mnt x) (wrap64 (esp x + i)).
-Definition rdpe_div_2exp (x : rdpe) (i : Z) : rdpe := Rdpe (mnt x) (wrap64 (esp x - i)).
+Definition rdpe_mul_2exp_old (x : rdpe) (i : Z) : rdpe := Rdpe (mnt x) (wrap64 (esp x + i)).
+Definition rdpe_div_2exp_old (x : rdpe) (i : Z) : rdpe := Rdpe (mnt x) (wrap64 (esp x - i)).
+(* fixed: rdpe_Move (re, e); rdpe_shift_esp (re, i, sub) *)
+Definition rdpe_mul_2exp (x : rdpe) (i : Z) : rdpe := rdpe_shift_esp x i false.
+Definition rdpe_div_2exp (x : rdpe) (i : Z) : rdpe := rdpe_shift_esp x i true.
 
 (* ---- division ------------------------------------------------------------ *)
+Definition rdpe_div_old (x y : rdpe) : rdpe :=
+  rdpe_norm_old (Rdpe (fdiv (mnt x) (mnt y)) (wrap64 (esp x - esp y))).
 Definition rdpe_div (x y : rdpe) : rdpe :=
-  rdpe_norm (Rdpe (fdiv (mnt x) (mnt y)) (wrap64 (esp x - esp y))).
+  rdpe_norm (rdpe_set_esp (Rdpe (fdiv (mnt x) (mnt y)) (esp x)) (esp x) (esp y) true).
 Definition rdpe_div_d (x : rdpe) (d : b64) : rdpe :=
   rdpe_norm (Rdpe (fdiv (mnt x) d) (esp x)).
 
@@ -227,25 +241,27 @@ Definition cdpe_mul_gen (a b : cdpe) : cdpe :=
 Definition cdpe_inv_gen (c : cdpe) : cdpe :=
   let e := rdpe_inv_eq (cdpe_smod c) in
   Cdpe (mul (cre c) e) (mul (rdpe_neg (cim c)) e).
-(* Esp (Im) += 1 after the product: plain long addition *)
+(* rdpe_shift_esp (Im, 1, 0) after the product *)
 Definition cdpe_sqr_gen (c : cdpe) : cdpe :=
   let e1 := mul (cre c) (cre c) in
   let e2 := mul (cim c) (cim c) in
   let im := mul (cim c) (cre c) in
-  Cdpe (rdpe_sub e1 e2) (Rdpe (mnt im) (wrap64 (esp im + 1))).
+  Cdpe (rdpe_sub e1 e2) (rdpe_shift_esp im 1 false).
 Definition cdpe_sqr_eq_gen (c : cdpe) : cdpe :=
   let e1 := rdpe_sqr (cre c) in
   let e2 := rdpe_sqr (cim c) in
   let im := mul (cim c) (cre c) in
-  Cdpe (rdpe_sub e1 e2) (Rdpe (mnt im) (wrap64 (esp im + 1))).
+  Cdpe (rdpe_sub e1 e2) (rdpe_shift_esp im 1 false).
 End WithMul.
 
 Definition cdpe_mul_e (c : cdpe) (e : rdpe) : cdpe :=
-  cdpe_norm (Cdpe (Rdpe (fmul (mnt (cre c)) (mnt e)) (wrap64 (esp (cre c) + esp e)))
-                  (Rdpe (fmul (mnt (cim c)) (mnt e)) (wrap64 (esp (cim c) + esp e)))).
+  cdpe_norm (Cdpe (rdpe_set_esp (Rdpe (fmul (mnt (cre c)) (mnt e)) (esp (cre c))) (esp (cre c)) (esp e) false)
+                  (rdpe_set_esp (Rdpe (fmul (mnt (cim c)) (mnt e)) (esp (cim c))) (esp (cim c)) (esp e) false)).
 Definition cdpe_div_e (c : cdpe) (e : rdpe) : cdpe :=
-  cdpe_norm (Cdpe (Rdpe (fdiv (mnt (cre c)) (mnt e)) (wrap64 (esp (cre c) - esp e)))
-                  (Rdpe (fdiv (mnt (cim c)) (mnt e)) (wrap64 (esp (cim c) - esp e)))).
+  cdpe_norm (Cdpe (rdpe_set_esp (Rdpe (fdiv (mnt (cre c)) (mnt e)) (esp (cre c))) (esp (cre c)) (esp e) true)
+                  (rdpe_set_esp (Rdpe (fdiv (mnt (cim c)) (mnt e)) (esp (cim c))) (esp (cim c)) (esp e) true)).
+Definition cdpe_mul_2exp (c : cdpe) (i : Z) : cdpe := Cdpe (rdpe_shift_esp (cre c) i false) (rdpe_shift_esp (cim c) i false).
+Definition cdpe_div_2exp (c : cdpe) (i : Z) : cdpe := Cdpe (rdpe_shift_esp (cre c) i true) (rdpe_shift_esp (cim c) i true).
 Definition cdpe_mul_d (c : cdpe) (d : b64) : cdpe :=
   cdpe_norm (Cdpe (Rdpe (fmul (mnt (cre c)) d) (esp (cre c))) (Rdpe (fmul (mnt (cim c)) d) (esp (cim c)))).
 Definition cdpe_div_d (c : cdpe) (d : b64) : cdpe :=
